@@ -1,31 +1,12 @@
 (* C18: facts about the run-time side (Lang/Interp.v): name resolution, stores, closures, and the
    well-formedness of macro values (a macro's closure holds every free name of the macro). *)
-From MJ Require Import Common.Base Lang.Syntax Lang.Meta Lang.Interp C18.Tracker.
+From MJ Require Import Common.Base Lang.Syntax Lang.Meta Lang.Interp Lang.Facts C18.Tracker.
 
 Lemma bind_ok {A B} (o : outcome A) (f : A -> outcome B) r : bind o f = Ok r -> exists a, o = Ok a /\ f a = Ok r.
 Proof. destruct o; cbn; try discriminate. intros H. eauto. Qed.
 
-Section ValueInd.
-Variable P : value -> Prop.
-Hypothesis HUndef : P VUndef.
-Hypothesis HSilent : P VSilent.
-Hypothesis HNone : P VNone.
-Hypothesis HBool : forall b, P (VBool b).
-Hypothesis HInt : forall z, P (VInt z).
-Hypothesis HStr : forall b s, P (VStr b s).
-Hypothesis HListV : forall l, Forall P l -> P (VList l).
-Hypothesis HMacroV : forall m cl, P (VMacro m cl).
-Hypothesis HLoop : forall i n, P (VLoop i n).
-Hypothesis HFunc : forall f, P (VFunc f).
-Fixpoint value_ind' (v : value) : P v :=
-  match v with
-  | VUndef => HUndef | VSilent => HSilent | VNone => HNone | VBool b => HBool b | VInt z => HInt z
-  | VStr b s => HStr b s
-  | VList l => HListV l ((fix go (l : list value) : Forall P l :=
-                            match l with [] => Forall_nil _ | x :: r => Forall_cons _ (value_ind' x) (go r) end) l)
-  | VMacro m cl => HMacroV m cl | VLoop i n => HLoop i n | VFunc f => HFunc f
-  end.
-End ValueInd.
+(* the strong induction principle for nested values (lists, maps) is Lang/Facts.v's *)
+Notation value_ind' := value_ind_nested.
 
 Definition closures := list (list (name * value)).
 
@@ -51,6 +32,8 @@ Fixpoint vgood (C : closures) (v : value) : Prop :=
   match v with
   | VMacro mc cl => mgood C mc cl
   | VList l => (fix go (l : list value) : Prop := match l with [] => True | x :: r => vgood C x /\ go r end) l
+  | VMap m => (fix go (m : list (value * value)) : Prop :=
+                 match m with [] => True | (k, x) :: r => (vgood C k /\ vgood C x) /\ go r end) m
   | _ => True
   end.
 
@@ -63,6 +46,16 @@ Proof.
     + intros H. inversion H; subst. split; auto. apply IH. auto.
 Qed.
 
+(* a map is well formed when all its keys and values are *)
+Lemma vgood_map C m : vgood C (VMap m) <-> entries_all (vgood C) m.
+Proof.
+  cbn [vgood]. unfold entries_all. induction m as [|[k x] r IH].
+  - split; auto.
+  - split.
+    + intros [H1 H2]. constructor; [exact H1|]. apply IH, H2.
+    + intros H. inversion H as [|? ? H1 H2]; subst. split; [exact H1|]. apply IH, H2.
+Qed.
+
 Lemma mgood_mono C C' mc cl : clos_ext C C' -> mgood C mc cl -> mgood C' mc cl.
 Proof. intros [_ E] [H1 H2]. split; auto. intros x Hx. destruct (H2 x Hx) as (id & -> & Hg). exists id. split; auto. Qed.
 
@@ -71,6 +64,8 @@ Proof.
   intros E. induction v using value_ind'; cbn [vgood]; auto.
   - change (vgood C (VList l) -> vgood C' (VList l)). rewrite !vgood_list. intros Hl.
     rewrite Forall_forall in *. intros x Hx. apply H; auto.
+  - change (vgood C (VMap m) -> vgood C' (VMap m)). rewrite !vgood_map. unfold entries_all. intros Hm.
+    rewrite Forall_forall in *. intros p Hp. destruct (H p Hp) as [IHk IHx]. destruct (Hm p Hp) as [Gk Gx]. split; auto.
   - intros Hm. eapply mgood_mono; eauto.
 Qed.
 
@@ -79,15 +74,22 @@ Fixpoint vplain (v : value) : bool :=
   match v with
   | VMacro _ _ => false
   | VList l => (fix go (l : list value) : bool := match l with [] => true | x :: r => vplain x && go r end) l
+  | VMap m => (fix go (m : list (value * value)) : bool :=
+                 match m with [] => true | (k, x) :: r => (vplain k && vplain x) && go r end) m
   | _ => true
   end.
 Lemma vplain_list l : vplain (VList l) = forallb vplain l.
 Proof. cbn [vplain]. induction l; cbn; auto; try (rewrite IHl; reflexivity). Qed.
+Lemma vplain_map m : vplain (VMap m) = forallb (fun p => vplain (fst p) && vplain (snd p)) m.
+Proof. cbn [vplain]. induction m as [|[k x] r IH]; cbn [forallb fst snd]; [reflexivity|]. rewrite IH. reflexivity. Qed.
 Lemma vplain_good C v : vplain v = true -> vgood C v.
 Proof.
   induction v using value_ind'; cbn [vgood]; auto; try discriminate.
-  change (vplain (VList l) = true -> vgood C (VList l)). rewrite vplain_list, vgood_list, forallb_forall.
-  intros Hl. rewrite Forall_forall in *. intros x Hx. apply H; auto.
+  - change (vplain (VList l) = true -> vgood C (VList l)). rewrite vplain_list, vgood_list, forallb_forall.
+    intros Hl. rewrite Forall_forall in *. intros x Hx. apply H; auto.
+  - change (vplain (VMap m) = true -> vgood C (VMap m)). rewrite vplain_map, vgood_map, forallb_forall. unfold entries_all.
+    intros Hm. rewrite Forall_forall in *. intros p Hp. destruct (H p Hp) as [IHk IHx].
+    specialize (Hm p Hp). apply andb_prop in Hm as [Pk Px]. split; auto.
 Qed.
 
 (* ---- association lists ---- *)
